@@ -32,6 +32,19 @@ CLAIMS = {
  "C14": dict(cat="proof", tech="Lean 4 proof (checkpoint = encode(abstract state); idempotence; zero padding) + byte-level correspondence of checkpoints across chunkings/back ends",
    text="Kernel-checked: the checkpoint is a function of (key, bytes consumed) only, identical across chunkings and back ends; from_checkpoint(c).checkpoint()=c for produced c; bytes 128..160 are the pending bytes followed by zeros. " + CORR,
    note="Trusted: as C02. Genuine defect (stale buffer bytes) found on the pinned tree and fixed (commit 508ab49).", ref="4/C14"),
+ "C10": dict(cat="proof", tech="Lean 4 proof (complete case analysis of the 128-row configuration table + machine invariant by induction over histories) + tags observed in every build configuration x masked CPUID",
+   text="Kernel-checked for all 128 (arch, std, target-feature, detected-feature) rows: the new-ladder picks a permitted back end, the restore-ladder picks the same, portable iff no SIMD permitted, the tag names an existing union member, SIMD constructors are Some iff std and detected; by induction over histories every HighwayHasher obtained by new/default/restore/clone carries that back end. "
+        + CORR + " The oracle checks the property's RELATION (Lean `Permitted` evaluated on the observed tag), not equality with the model's choice; CPUID faulting gives the SSE-only and no-SIMD CPUs on this AVX2 host. Quick: 6 build configurations (+3 CPU masks on the std ones); thorough: all 20.",
+   note="Trusted: Lean kernel (axioms propext/Quot.sound/Classical.choice); Dispatch.lean transcription (tied by observed tags); CPUID emulation in the harness; aarch64/wasm arms are covered by C03/C04 runners when built.", ref="4/C10"),
+ "C12": dict(cat="proof", tech="Lean 4 proof (corollaries of the streaming/observer theorems on the machine) + correspondence driving the real Hasher / io::Write trait impls",
+   text="Kernel-checked: finish() after any writes on any back end is the 64-bit hash of the concatenation and leaves the state unchanged; write consumes and reports the whole buffer; flush is a no-op; builder-made hashers depend on the key only. Thin on the model side by design; " + CORR + " Streams use Hasher::write, io::Write::write, write_all, io::copy, flush, finish interleavings.",
+   note="Trusted: as C02. hash_one of std value types is exercised only through byte streams (the Hash impls of std types are not modelled).", ref="4/C12"),
+ "C13": dict(cat="proof", tech="Lean 4 proof (induction over histories of the machine: observers removable, frame property) + correspondence on histories with observers and divergent clones",
+   text="Kernel-checked: for every history, deleting all checkpoint/finish/flush/Debug calls changes neither the final world nor any other output; a clone is identical at cloning time; operations that do not name a handle never change it. In the model observers return the same state by definition; that the code does (hand-written union Clone/Debug, finish cloning) is what the correspondence stream checks on every tag arm reachable natively. " + CORR,
+   note="Trusted: as C02.", ref="4/C13"),
+ "C15": dict(cat="proof", tech="Lean 4 proof (frame + locality lemmas of step, induction over arbitrary interleavings) + interleaved multi-handle correspondence",
+   text="Kernel-checked: for any two families of API calls over disjoint handles and ANY interleaving of their steps, each family's outputs equal those of its isolated run (the schedule quantifier at the granularity of atomic API calls). Partial: real thread schedules and the std feature-detection cache are runtime behaviour the model cannot exhibit; the source-level absence of global state is checked by the facts translator when C15's static half is built. " + CORR,
+   note="Trusted: as C02; threads are not modelled (API calls are atomic in the model).", ref="4/C15"),
 }
 
 def main():
